@@ -4,6 +4,7 @@ flag, and the meaning of the recorded slots (supporting lemmas for C17).
 -/
 import DafRel.Lemmas.FinishApply
 import DafRel.Lemmas.Build
+import DafRel.Spec.Select
 
 namespace DafRel
 
@@ -15,25 +16,6 @@ theorem applySkip_shape (k : Rel) (sl : Slots) (r : Rel) (h : applySkip k sl = .
   simp only [bind, Except.bind, pure, Except.pure] at h
   repeat' split at h
   all_goals first | (cases h; done) | (cases h; exact ⟨_, rfl⟩)
-
-/-- The slots are well-formed on a skip target with columns `cols`. -/
-def Slots.wfOn (sl : Slots) (cols : Cols) : Prop :=
-  (UOp.sortCols sl.sort).subset cols = true ∧ (∀ c, sl.proj = some c → c.subset cols = true)
-
-/-- The columns a Select with these slots exposes. -/
-def Slots.columns (sl : Slots) (cols : Cols) : Cols :=
-  match sl.proj with
-  | some c => c
-  | none => cols
-
-/-- The list function the slots stand for: sort, then projection, then deduplication, then slice. -/
-def Slots.sem (sl : Slots) (cols : Cols) (l : List Row) : List Row :=
-  let l1 := if sl.sort.isEmpty then l else isort (lexLe sl.sort) l
-  let l2 := match sl.proj with
-    | some c => l1.map (fun r => r.restrict c)
-    | none => l1
-  let l3 := if sl.dedup then firstOcc (sl.columns cols) l2 else l2
-  if sl.sliceStart != 0 || sl.sliceStop.isSome then sliceList sl.sliceStart sl.sliceStop l3 else l3
 
 /-- One optional step of `apply_skip`. -/
 theorem applySkip_step (σ : Leaves) (op : UOp) (t : Rel) (hwf : t.WF) (htr : t.Truthful σ)
